@@ -105,7 +105,18 @@ pub fn replay(ucd: &Ucd, path: &str) -> i32 {
     }
     let now = obs.iter().find(|(a, _)| *a == api).map(|x| x.1.clone());
     if let Some(now) = now {
-        println!("current observation of {}: {}", api, vis(&now));
+        let now = vis(&now);
+        println!("current observation of {}: {}", api, now);
+        // exit 1 when the recorded wrong observation is what the code does now
+        let (exp, rec) = (g("expected"), g("observed"));
+        let same = |a: &str, b: &str| a == b || a == format!("Ok({})", b);
+        if rec != exp && same(&now, &rec) {
+            println!("REPRODUCED: the implementation still answers as recorded");
+            return 1;
+        }
+        if same(&now, &exp) {
+            println!("NOT REPRODUCED: the implementation now answers as expected");
+        }
     }
     0
 }
